@@ -119,6 +119,9 @@ enum {
     TLS_SHUTDOWN_MAX_RETRIES = 10,
     TLS_TIMEOUT_SEC = 0,
     TLS_TIMEOUT_USEC = 100000,
+    /* give up on a handshake the peer does not answer, like the other
+       negotiation steps do after 15 seconds */
+    TLS_HANDSHAKE_TIMEOUT_MSEC = 15000,
 };
 
 static void _tls_sock_wait(tls_t *tls, int error);
@@ -863,6 +866,7 @@ int tls_start(tls_t *tls)
     int error;
     int ret;
     long x509_res;
+    uint64_t started = time_stamp();
 
     /* Since we're non-blocking, loop the connect call until it
        succeeds or fails */
@@ -871,6 +875,13 @@ int tls_start(tls_t *tls)
         error = ret <= 0 ? SSL_get_error(tls->ssl, ret) : 0;
 
         if (ret == -1 && tls_is_recoverable(NULL, error)) {
+            if (time_elapsed(started, time_stamp()) >=
+                TLS_HANDSHAKE_TIMEOUT_MSEC) {
+                /* the peer stopped answering: fail the handshake */
+                strophe_error(tls->ctx, "tls", "TLS handshake timed out");
+                error = SSL_ERROR_SYSCALL;
+                break;
+            }
             /* wait for something to happen on the sock before looping back */
             _tls_sock_wait(tls, error);
             continue;
